@@ -139,8 +139,37 @@ class Check(CheckBase):
             zeros = bytes(12 * max(mx, 64))
             last = {}
             for step in range(case['nops']):
-                op = r.choice(['snap', 'snap', 'snap', 'repeat', 'del', 'clean', 'churn'])
+                op = r.choice(['snap', 'snap', 'snap', 'repeat', 'del', 'clean', 'churn', 'empty-only', 'faulty-snapshot-upload'])
                 u = r.choice(users)
+                if op == 'empty-only':
+                    # a tree of empty files only: no chunk at all, everything is in the snapshot object
+                    names = [f'CNRY{r.randrange(1 << 40):010x}-e{i}' for i in range(r.randint(1, 3))]
+                    note = f'NOTE{r.randrange(1 << 60):016x}'
+                    for nm in names:
+                        canaries['name-' + nm] = nm.encode()
+                    canaries['note-' + note] = note.encode()
+                    await world.snapshot(u, {f'dir{names[0]}/{nm}': b'' for nm in names}, note=note)
+                    counters['empty_only_snapshots'] = counters.get('empty_only_snapshots', 0) + 1
+                    continue
+                if op == 'faulty-snapshot-upload':
+                    # the upload of the snapshot object fails once (a transient fault): whatever the command does next,
+                    # nothing it sends may be readable
+                    names = [f'CNRY{r.randrange(1 << 40):010x}-f{i}' for i in range(2)]
+                    note = f'NOTE{r.randrange(1 << 60):016x}'
+                    for nm in names:
+                        canaries['name-' + nm] = nm.encode()
+                    canaries['note-' + note] = note.encode()
+                    fs = {f'dir{names[0]}/{nm}': content(r.choice([40, 3 * mx + 7])) for nm in names}
+                    world.store.faults = [{'op': 'upload', 'prefix': 'snapshots/', 'nth': 0, 'count': 1}]
+                    try:
+                        await world.snapshot(u, fs, note=note, fresh=True)
+                    except Exception:
+                        pass
+                    finally:
+                        world.store.faults = []
+                    await world.drain()
+                    counters['faulty_snapshot_uploads'] = counters.get('faulty_snapshot_uploads', 0) + 1
+                    continue
                 if op in ('snap', 'churn') or not world.snaps:
                     names = [f'CNRY{r.randrange(1 << 40):010x}-{i}' for i in range(r.randint(1, 4))]
                     for nm in names:
